@@ -367,17 +367,35 @@ def run_case(case, ctx):
         exp = np.where(inside, vmax, vmin)
         badi = (v != exp) & ~knife
         ctx.check("C03.indicator", not badi.any(), {"cells": np.argwhere(badi)[:5], "value": v[badi][:5]}, tags)
+    tprof = tags
+    if cls in ("SphericalDroplet", "DiffuseDroplet") and eq_unwrapped is not None:
+        # value-level attribution for the profile / monotone clauses: the tanh tail reaches ~15 widths, further than the
+        # inside/outside picture; the recorded finding covers exactly the pictures that equal the rendering without periodicity
+        ww_ = sc_typ(grid) if (cls == "SphericalDroplet" or case.get("width") is None) else case.get("width")
+        if cls == "SphericalDroplet" or not ww_:
+            exp_w = np.where(d < rho, vmax, vmin)
+            exp_n = np.where(d_n < rho_n, vmax, vmin)
+        else:
+            exp_w = vmin + (vmax - vmin) * (0.5 + 0.5 * np.tanh((rho - d) / ww_))
+            exp_n = vmin + (vmax - vmin) * (0.5 + 0.5 * np.tanh((rho_n - d_n) / ww_))
+        tol_ = 1e-12 * max(1.0, hi - lo, abs(hi), abs(lo))
+        if np.any(np.abs(exp_w - exp_n) > tol_):
+            knife_n = np.abs(d_n - rho_n) <= 1e-9 * sc
+            tprof = dict(tags, wraps_z=True, equals_unwrapped_render=bool(np.all((np.abs(v - exp_n) <= tol_) | knife_n)))
     if cls in ("SphericalDroplet", "DiffuseDroplet"):
         order = np.argsort(d, axis=None, kind="stable")
         dv, vv = d.ravel()[order], (v.ravel()[order] - mid) * sgn
         # value must not increase with distance (cells at numerically equal distance may differ by rounding only)
         inc = (np.diff(vv) > 1e-13 * (hi - lo)) & (np.diff(dv) > 1e-9 * sc)
-        ctx.check("C03.monotone", not inc.any(), {"at": np.flatnonzero(inc)[:5]}, tags)
+        ctx.check("C03.monotone", not inc.any(), {"at": np.flatnonzero(inc)[:5]}, tprof)
         if cls == "DiffuseDroplet" and w not in (0.0,):
             ww = sc_typ(grid) if w is None else w
             exp = vmin + (vmax - vmin) * (0.5 + 0.5 * np.tanh((rho - d) / ww))
-            ctx.check("C03.profile", bool(np.allclose(v, exp, rtol=0, atol=1e-12 * max(1.0, hi - lo, abs(hi), abs(lo)))), {"maxdiff": float(np.max(np.abs(v - exp)))}, tags)
-    # translation by whole cells along periodic axes
+            ctx.check("C03.profile", bool(np.allclose(v, exp, rtol=0, atol=1e-12 * max(1.0, hi - lo, abs(hi), abs(lo)))), {"maxdiff": float(np.max(np.abs(v - exp)))}, tprof)
+    # translation by whole cells along periodic axes.  Distances are recomputed from shifted coordinates, i.e. change by a few ulp;
+    # a thin interface amplifies that by distance / width (tanh argument), so the tolerance scales with it
+    w_eff = (sc_typ(grid) if w is None else w) if cls != "SphericalDroplet" else 0.0
+    rtol_roll = 1e-12 if not w_eff else max(1e-12, 16 * np.finfo(float).eps * float(np.max(d) + 3 * sc * max(g.get("shape", [1]))) / w_eff)
     if g["kind"] == "cart" and any(g["periodic"]):
         per = [a for a in range(len(g["shape"])) if g["periodic"][a]]
         for shift in ([1] * len(per), [g["shape"][a] - 2 for a in per], [-(g["shape"][a] + 1) for a in per]):
@@ -389,7 +407,7 @@ def run_case(case, ctx):
             f2 = make_drop(spec, c2).get_phase_field(grid, vmin=vmin, vmax=vmax)
             ctx.op()
             want = np.roll(v, sh, axis=tuple(range(v.ndim)))
-            diffm = np.abs(np.asarray(f2.data) - want) > 1e-12 * max(1.0, abs(hi), abs(lo))
+            diffm = np.abs(np.asarray(f2.data) - want) > rtol_roll * max(1.0, abs(hi), abs(lo))
             # cells that are knife-edges in either picture are excluded
             d2, rho2, amb2 = reference(g, spec, c2)
             k2 = np.abs(d2 - rho2) <= 1e-9 * sc
@@ -409,7 +427,7 @@ def run_case(case, ctx):
             f2 = make_drop(spec, c2).get_phase_field(grid, vmin=vmin, vmax=vmax)
             ctx.op()
             want = np.roll(v, m, axis=1)
-            diffm = np.abs(np.asarray(f2.data) - want) > 1e-12 * max(1.0, abs(hi), abs(lo))
+            diffm = np.abs(np.asarray(f2.data) - want) > rtol_roll * max(1.0, abs(hi), abs(lo))
             d2, rho2, amb2 = reference(g, spec, c2)
             k2 = (np.abs(d2 - rho2) <= 1e-9 * sc) | np.roll(knife | centre_cell, m, axis=1)
             if cls.startswith("Perturbed"):
@@ -421,8 +439,30 @@ def run_case(case, ctx):
             beyond2 = (np.asarray(f2.data, float) - mid) * sgn > 0
             eq2 = not (((beyond2 != (d_n2 < rho_n2)) & ~(np.abs(d_n2 - rho_n2) <= 1e-9 * sc)).any())
             # a whole-cell translation moves the droplet across the boundary for at least one of the two pictures
-            t2 = dict(tags, wraps_z=True, equals_unwrapped_render=bool(eq_unwrapped and eq2))
+            eqv = unwrapped_picture(g, spec, grid, vmin, vmax, v) and unwrapped_picture(g, spec, grid, vmin, vmax, f2.data, c2)
+            t2 = dict(tags, wraps_z=True, equals_unwrapped_render=bool(eqv))
             ctx.check("C03.roll", not diffm.any(), {"shift": m, "cells": np.argwhere(diffm)[:5]}, t2)
+
+
+def unwrapped_picture(g, spec, grid, vmin, vmax, v, centre=None):
+    """True when the field v equals (value by value, knife-edge cells excepted) the rendering of the droplet on the same
+    cylindrical grid WITHOUT periodicity - the recorded dependency defect"""
+    d_n, rho_n, _ = reference(dict(g, periodic_z=False), spec, centre)
+    w = spec.get("width")
+    if spec["cls"] == "SphericalDroplet":
+        w = 0.0
+    elif w is None:
+        w = sc_typ(grid)
+    if w:
+        exp_n = vmin + (vmax - vmin) * (0.5 + 0.5 * np.tanh((rho_n - d_n) / w))
+    else:
+        exp_n = np.where(d_n < rho_n, vmax, vmin)
+    lo, hi = min(vmin, vmax), max(vmin, vmax)
+    tol_ = 1e-12 * max(1.0, hi - lo, abs(hi), abs(lo))
+    knife_n = np.abs(d_n - rho_n) <= 1e-9 * scale_of(g)
+    if spec["cls"].startswith("Perturbed"):
+        knife_n = knife_n | (d_n <= 1e-9 * scale_of(g))
+    return bool(np.all((np.abs(np.asarray(v, float) - exp_n) <= tol_) | knife_n))
 
 
 def sc_typ(grid):
